@@ -353,10 +353,20 @@ fn run_main(id: &str, tier: Tier) -> i32 {
     });
     loop {
         let mut running = 0;
+        let mut stuck = false;
         for (c, _, _, _) in children.iter_mut() {
-            if let Ok(None) = c.try_wait() {
-                running += 1;
+            match c.try_wait() {
+                Ok(None) => running += 1,
+                Ok(Some(st)) if st.code() == Some(3) => stuck = true,
+                _ => {}
             }
+        }
+        if stuck {
+            eprintln!("a worker gave up on a case that did not finish (see INCONCLUSIVE line): remaining workers killed; inconclusive");
+            for (c, _, _, _) in children.iter_mut() {
+                let _ = c.kill();
+            }
+            return 2;
         }
         if running == 0 {
             break;
